@@ -77,6 +77,13 @@ def fallback(rng):
                 ms = ModeStatistics.from_particles(X, w, lab, dof_fallback=fb, n_modes=2)
                 if not np.allclose(ms.degrees_of_freedom, fb):
                     return f"from_particles(dof_fallback={fb}, n_modes=2) stored {ms.degrees_of_freedom.tolist()}"
+                lab3 = lab.copy()
+                lab3[0] = 2                                         # label 2 carried by a single particle: the all-particle fit stands in
+                for nm, lb in ((3, lab3), (4, lab3)):
+                    ms = ModeStatistics.from_particles(X, w, lb, dof_fallback=fb, n_modes=nm)
+                    if not np.all(np.isfinite(ms.degrees_of_freedom)) or not np.allclose(ms.degrees_of_freedom, fb):
+                        return (f"from_particles(dof_fallback={fb}, n_modes={nm}) with a label carried by <= n_dim particles stored degrees of "
+                                f"freedom {ms.degrees_of_freedom.tolist()} for a non-finite fit")
             except TypeError:
                 pass
             ms = ModeStatistics.from_global(X, w, dof_fallback=fb)
